@@ -1,4 +1,5 @@
 import NodisVerif.Model.Store
+import NodisVerif.Model.FloatDec
 /-
   One function per exported method of *Nodis (key.go, str.go, list.go, hash.go, set.go, zset.go),
   mirroring the Go bodies statement by statement on the single-threaded store model.
@@ -406,10 +407,11 @@ def decimalFloatSyntax (body : Bytes) : Bool :=
       !r.isEmpty && r.any isDigit && r.all (fun c => isDigit c || c = 95)
     else false
 
-/-- ParseFloat on the integer-valued fragment: some (some x) parsed, some none = certainly an
+/-- (the model before Model/FloatDec.lean; kept because `Proofs/FloatDecInt.lean` proves the new functions agree
+    with it on its domain) ParseFloat on the integer-valued fragment: some (some x) parsed, some none = certainly an
     error (a byte that no float syntax allows in that position class), none = outside the model
     (hex floats, inf/nan spellings, fractions, exponents, underscores, very long digit strings) -/
-def parseFloatText (b : Bytes) : Option (Option F64) :=
+def parseFloatTextInt (b : Bytes) : Option (Option F64) :=
   if isIntText b then (match parseInt64 b with
     | some n => (F64.ofInt? n).map some
     | none => none)
@@ -425,8 +427,15 @@ def parseFloatText (b : Bytes) : Option (Option F64) :=
       else some none
 
 /-- FormatFloat(x,'f',-1,64) for integer-valued doubles -/
-def formatFloat (x : F64) : Option Bytes :=
+def formatFloatInt (x : F64) : Option Bytes :=
   (F64.toInt? x).map fun n => if n = 0 ∧ x >>> 63 == 1 then [45, 48] else formatInt n
+
+/-- `strconv.ParseFloat(b, 64)`: `some (some x)` parsed, `some none` = error (syntax or range), `none` = outside the
+    model (hexadecimal floats, more than 800 significant digits). Decimal text of any form: Model/FloatDec.lean -/
+def parseFloatText (b : Bytes) : Option (Option F64) := FloatDec.parseFloat b
+
+/-- `strconv.FormatFloat(x, 'f', -1, 64)` (total; the `Option` is kept for the callers' shape) -/
+def formatFloat (x : F64) : Option Bytes := some (FloatDec.formatShortest x)
 
 def incrByFloat (s : MState) (now : Int) (key : Bytes) (delta : F64) : R :=
   let (s, _) := writeKey s now key (some (.str []))
